@@ -1854,7 +1854,24 @@ func ruleC08Actions(c *Ctx) {
 					if !ok {
 						continue
 					}
-					if f, _ := fieldOfAddr(st.Addr); !sameVar(f, fld) {
+					// the field itself, or a part of it (the list wrapped in a small struct of its own)
+					within := func(addr ssa.Value) bool {
+						for i := 0; i < 4 && addr != nil; i++ {
+							fa, isFA := addr.(*ssa.FieldAddr)
+							if !isFA {
+								return false
+							}
+							if f, _ := fieldOfAddr(fa); sameVar(f, fld) {
+								return true
+							}
+							if st0, isSt := derefType(fa.X.Type()).Underlying().(*types.Struct); isSt && sameVar(st0.Field(fa.Field), fld) {
+								return true
+							}
+							addr = fa.X
+						}
+						return false
+					}
+					if !within(st.Addr) {
 						continue
 					}
 					n++
@@ -1865,7 +1882,7 @@ func ruleC08Actions(c *Ctx) {
 						okW = false
 						if isCall {
 							if bi, isB := call.Call.Value.(*ssa.Builtin); isB && bi.Name() == "append" {
-								if f2, _ := loadedField(call.Call.Args[0]); sameVar(f2, fld) {
+								if ld, isLd := call.Call.Args[0].(*ssa.UnOp); isLd && ld.Op == token.MUL && within(ld.X) {
 									okW = true
 								}
 							}
